@@ -8,6 +8,7 @@ import (
 	"io"
 	"os"
 	"os/exec"
+	"reflect"
 	"regexp"
 	"strconv"
 	"strings"
@@ -58,6 +59,12 @@ func scaleSource(shape string, n int) string {
 			descent(false)
 		}
 		sb.WriteString("def t { print 7 }\n")
+	case "bind-late":
+		sb.WriteString("def filler {\n")
+		for i := 0; i < n; i++ {
+			fmt.Fprintf(&sb, "g%d = \"s%d\"\n", i, i)
+		}
+		fmt.Fprintf(&sb, "}\ndef target \"t\" { k = %d }\nbind target -> struct\n", n)
 	case "many-vars", "many-vars-read", "many-vars-in-block":
 		if shape == "many-vars-in-block" {
 			sb.WriteString("def b {\n")
@@ -110,6 +117,7 @@ func scaleSource(shape string, n int) string {
 		sb.WriteString("print " + first + " " + op + " (1" + strings.Repeat("+1", m) + ")\n")
 	case "repeat":
 		if n < 0 {
+			fmt.Fprintf(&sb, "var e = \"\"\nvar k = -%d\nprint \"\" * -%d == \"\"\nprint e * k\n", -n, -n) // the empty string too: nothing to repeat is still a negative count
 			fmt.Fprintf(&sb, "print \"ab\" * -%d\n", -n)
 		} else {
 			fmt.Fprintf(&sb, "var s = \"a\" * %d\nprint 1\n", n)
@@ -377,13 +385,15 @@ func replayTotal(args []string) int {
 			// shapes whose outcome the specification states in closed form
 			var out, lg bytes.Buffer
 			var ierr error
+			var ires []bcl.Block
+			var ibind bcl.Binding
 			func() {
 				defer func() {
 					if r := recover(); r != nil {
 						ierr = fmt.Errorf("PANIC: %v", r)
 					}
 				}()
-				_, _, ierr = bcl.Interpret(src, bcl.OptOutput(&out), bcl.OptLogger(&lg))
+				ires, ibind, ierr = bcl.Interpret(src, bcl.OptOutput(&out), bcl.OptLogger(&lg))
 			}()
 			if c.DCol > 0 && ierr != nil {
 				// the diagnostic of the over-long jump sits just after the ')' closing the operand (line 1, column in closed form)
@@ -394,6 +404,11 @@ func replayTotal(args []string) int {
 			}
 			want := string(bytesOf(c.Expect))
 			switch {
+			case want == "b":
+				sb, ok := ibind.(bcl.StructBinding)
+				if ierr != nil || !ok || len(ires) != 2 || sb.Value.Type != "target" || sb.Value.Name != "t" || !reflect.DeepEqual(sb.Value.Fields, map[string]any{"k": c.N}) {
+					s.bad(fmt.Sprintf("%s n=%d: the binding must be the one block of type target (name t, k = %d), got err=%v binding=%+v (%d result blocks)", c.Shape, c.N, c.N, ierr, ibind, len(ires)), "scale:binding", raw, fmt.Sprintf("%+v", ibind), true)
+				}
 			case want == "r":
 				if ierr == nil || !strings.HasPrefix(ierr.Error(), "runtime error") {
 					s.bad(fmt.Sprintf("%s n=%d: more blocks open at a time than the limit must be a runtime error, got err=%v", c.Shape, c.N, ierr), "limit:blocks-accepted", raw, string(trunc(out.Bytes(), 200)), true)
